@@ -141,6 +141,8 @@ def srvStep (d : SrvDrv) (toks : List String) : Option (SrvDrv × String) :=
   | ["lis", stream, fam, unspec, vetoed] =>
     some ({ d with cfg := { d.cfg with lis := d.cfg.lis ++ [⟨b01 stream, (natOf fam), b01 unspec, parseIPs vetoed⟩] } }, "ok")
   | ["state"] => some (d, showState d.st)
+  -- H9: teardown during a slow lifecycle callback; the model's answer is justified by C18.addperm_vs_close
+  | "slowcb" :: _ => some (d, "ok")
   | _ =>
     match parseOp toks with
     | some op =>
